@@ -46,6 +46,21 @@ type RTNamed []int
 type RTMapNamed map[gen.Atom][]byte
 type RTNamedStr string
 type RTMarsh struct{ V uint32 }
+// RTBlob travels through encoding.BinaryMarshaler
+type RTBlob struct{ D []byte }
+
+func (b RTBlob) MarshalBinary() ([]byte, error) { return append([]byte{}, b.D...), nil }
+func (b *RTBlob) UnmarshalBinary(p []byte) error {
+	b.D = append([]byte{}, p...)
+	return nil
+}
+
+// RTBlobMix places marshaled payloads at chosen offsets of the message (the encoder's buffer grows at 4096, 8192, ...)
+type RTBlobMix struct {
+	S string
+	B RTBlob
+	L []RTBlob
+}
 type RTLate struct {
 	K string
 	V []int
@@ -67,7 +82,7 @@ var errSentinelA = errors.New("verif sentinel A")
 var errSentinelB = errors.New("verif sentinel B with 100% and %s")
 
 func registerAll() {
-	for _, x := range []any{RTInner{}, RTStruct{}, RTOuter{}, RTNamed{}, RTMapNamed{}, RTNamedStr(""), RTMarsh{}} {
+	for _, x := range []any{RTInner{}, RTStruct{}, RTOuter{}, RTNamed{}, RTMapNamed{}, RTNamedStr(""), RTMarsh{}, RTBlob{}, RTBlobMix{}} {
 		if err := edf.RegisterTypeOf(x); err != nil && err != gen.ErrTaken {
 			panic(fmt.Sprintf("register %T: %v", x, err))
 		}
@@ -201,6 +216,14 @@ func str(n int) string {
 	return string(b)
 }
 
+func blobs(n, size int) []RTBlob {
+	out := make([]RTBlob, n)
+	for i := range out {
+		out[i] = RTBlob{D: []byte(str(size))}
+	}
+	return out
+}
+
 func leaves() []tv {
 	rv := reflect.ValueOf
 	mk := func(name string, xs ...any) tv {
@@ -233,6 +256,18 @@ func leaves() []tv {
 		mk("alias", gen.Alias{}, gen.Alias{Node: "n@h", Creation: -1, ID: [3]uint64{1, math.MaxUint64, 3}}),
 		mk("event", gen.Event{}, gen.Event{Name: "ev", Node: "n@h"}),
 		mk("ref", gen.Ref{}, gen.Ref{Node: "n@h", Creation: 1, ID: [3]uint64{math.MaxUint64, 0, 1}}),
+		// every atom-typed field of the identifier types at the 255/256 boundary, one at a time
+		mk("pid-node256", gen.PID{Node: gen.Atom(str(256)), ID: 1, Creation: 1}),
+		mk("processid-name256", gen.ProcessID{Name: gen.Atom(str(256)), Node: "n@h"}, gen.ProcessID{Name: gen.Atom(str(255)), Node: "n@h"}),
+		mk("processid-node256", gen.ProcessID{Name: "name", Node: gen.Atom(str(256))}),
+		mk("alias-node", gen.Alias{Node: gen.Atom(str(255)), Creation: 1, ID: [3]uint64{1, 2, 3}}, gen.Alias{Node: gen.Atom(str(256)), Creation: 1, ID: [3]uint64{1, 2, 3}}),
+		mk("event-name", gen.Event{Name: gen.Atom(str(255)), Node: "n@h"}, gen.Event{Name: gen.Atom(str(256)), Node: "n@h"}, gen.Event{Name: gen.Atom(str(300)), Node: gen.Atom(str(255))}),
+		mk("event-node", gen.Event{Name: "ev", Node: gen.Atom(str(255))}, gen.Event{Name: "ev", Node: gen.Atom(str(256))}),
+		mk("ref-node", gen.Ref{Node: gen.Atom(str(255)), Creation: 1, ID: [3]uint64{1, 2, 3}}, gen.Ref{Node: gen.Atom(str(256)), Creation: 1, ID: [3]uint64{1, 2, 3}}),
+		// payloads of a BinaryMarshaler around the growth steps of the encoder's buffer, alone and at chosen offsets
+		mk("blob", RTBlob{}, RTBlob{D: []byte{}}, RTBlob{D: []byte(str(100))}, RTBlob{D: []byte(str(4000))}, RTBlob{D: []byte(str(4090))}, RTBlob{D: []byte(str(4096))}, RTBlob{D: []byte(str(5000))}, RTBlob{D: []byte(str(100000))}),
+		mk("blobmix", RTBlobMix{}, RTBlobMix{S: str(3900), B: RTBlob{D: []byte(str(200))}}, RTBlobMix{S: str(4000), B: RTBlob{D: []byte(str(200))}}, RTBlobMix{S: str(4080), B: RTBlob{D: []byte(str(200))}},
+			RTBlobMix{S: str(8100), B: RTBlob{D: []byte(str(200))}}, RTBlobMix{L: blobs(60, 100)}, RTBlobMix{S: "x", B: RTBlob{D: []byte("y")}, L: blobs(3, 2000)}),
 		mk("time", time.Time{}, time.Date(2024, 2, 29, 23, 59, 59, 999999999, time.UTC), time.Date(2024, 2, 29, 23, 59, 59, 1, time.FixedZone("X", 5*3600+1800)), time.Date(9999, 12, 31, 23, 59, 59, 0, time.UTC), time.Date(-100, 1, 1, 0, 0, 0, 0, time.UTC), time.Unix(0, 0)),
 		mk("named", RTNamed(nil), RTNamed{}, RTNamed{1, -1}),
 		mk("namedstr", RTNamedStr(""), RTNamedStr(str(300))),
